@@ -284,6 +284,7 @@ def check_bad(case):
             fn = os.path.join(d, "repodata.json")
             doc = copy.deepcopy(case["doc"])
             key = seed.hex()
+            cli_seed = seed
             fname = fn
             if bad == "no-packages":
                 doc.pop("packages")
@@ -299,7 +300,11 @@ def check_bad(case):
             elif bad == "bad-key-short":
                 key = key[:-2]
             elif bad == "bad-key-upper":
-                key = key.upper() if key.upper() != key else "AB" * 32
+                if key.upper() != key:
+                    key = key.upper()
+                else:       # a seed without letters (e.g. all zeros) has no upper-case spelling: use another key's
+                    key = "AB" * 32
+                    cli_seed = bytes.fromhex("ab" * 32)
             elif bad == "bad-key-type":
                 key = seed
             elif bad == "fname-not-str":
@@ -396,7 +401,7 @@ def check_bad(case):
             if case["proc"] == "gpg" and bad in ("upper-fpr",) and case["via_cli"]:
                 ok = _gpg_complete(data, dict(case, doc=case["doc"]))      # the CLI lower-cases fingerprints by design
             if case["proc"] == "repodata" and bad == "bad-key-upper" and case["via_cli"]:
-                ok = data == canon(C11.expected_after(case["doc"], seed))   # the CLI lower-cases the key file by design
+                ok = data == canon(C11.expected_after(case["doc"], cli_seed))   # the CLI lower-cases the key file by design
             if not ok:
                 raise Violation("%s reported success on malformed input %r (file %s)" % (case["proc"], bad,
                                                                                      "unchanged" if data == original else "changed"),
